@@ -14,7 +14,8 @@ Variable sch : schema.
 Section Generic.
 (* Q also sees the dirty flag (third argument), so that "a dirty session stays dirty" is an instance too *)
 Variable Q : db -> db -> nat -> Prop.
-Hypothesis Q_ins : forall d c n e pk cols d' pk', Q d c n -> db_insert sch d e pk cols = inr (d', pk') -> Q d' c n.
+(* (the INSERT of the model always carries one column per attribute: instances may rely on it) *)
+Hypothesis Q_ins : forall d c n e pk cols d' pk', Q d c n -> length cols = nattrs sch e -> db_insert sch d e pk cols = inr (d', pk') -> Q d' c n.
 Hypothesis Q_upd : forall d c n e pk asg d', Q d c n -> db_update sch d e pk asg = inr d' -> Q d' c n.
 Hypothesis Q_del : forall d c n e pk d', Q d c n -> db_delete sch d e pk = inr d' -> Q d' c n.
 Hypothesis Q_dirty : forall d c n site, Q d c n -> Q d c (match n with O => site | S m => S m end).
@@ -184,7 +185,7 @@ Proof.
   destruct (negb (status_eqb (o_st ob) SCreated)). pdauto.
   cbv zeta. destruct (db_insert sch (s_db s) (o_ent ob) (o_pk ob) (row_of_obj sch s ob)) as [er|[d' newpk]] eqn:I.
   destruct er; pdauto.
-  assert (H1 : Pd (set_db s d')). { exact (Q_ins _ _ _ _ _ _ _ _ H I). }
+  assert (H1 : Pd (set_db s d')). { refine (Q_ins _ _ _ _ _ _ _ _ H _ I). unfold row_of_obj. rewrite map_length, seq_length. reflexivity. }
   pdauto.
 Qed.
 Hint Resolve Pd_save_created : pd.
@@ -481,7 +482,7 @@ Definition Pd_ok (s : sess) : Prop := Pd Qok s.
 Lemma Qok_generic : (forall s, Pd_ok s -> Pd_ok (out_state (flush sch s))) /\ (forall s op, is_txn_op op = false -> Pd_ok s -> Pd_ok (fst (step sch s op))) /\ (forall s0 s1, Pd_ok s1 -> Pd_ok (keep_declined s0 s1)).
 Proof.
   apply (Pd_generic Qok).
-  - intros d c n e pk cols d' pk' [A B] I. split; [|exact B]. exact (db_insert_ok _ _ _ _ _ _ _ A I).
+  - intros d c n e pk cols d' pk' [A B] _ I. split; [|exact B]. exact (db_insert_ok _ _ _ _ _ _ _ A I).
   - intros d c n e pk asg d' [A B] I. split; [|exact B]. exact (db_update_ok _ _ _ _ _ _ A I).
   - intros d c n e pk d' [A B] I. split; [|exact B]. exact (db_delete_ok _ _ _ _ _ A I).
   - intros d c n site H. exact H.
